@@ -4,6 +4,8 @@ CONSTANTS
   Lens <- Lens_C09
   Dts <- Dts_C09
   T0 <- T0_C09
+  MaxSw = 0
+  ResetCfgs <- NoReset
   MaxRecs = 3
   MaxRuns = 2
   MaxTrig = 0
